@@ -120,7 +120,26 @@ package bitmap
 //@   reveal idxx, blockx, alignedx
 //@   split a.page 0..128
 
+// the interface-level view of the IPv6 prefix allocator (allocators.Allocator contract): a block is
+// outstanding when it is an aligned block of the pool whose bit is set
+//@ abstracts outst(a *Allocator)[key bv128] = inpool6(a, key) && alignedx(key, a.page) && bits(a.bitmap)[idx6(a, key)]
+//@ abstracts poollo(a *Allocator) = u128(a.containing.IP)
+//@ abstracts poolhi(a *Allocator) = u128(a.containing.IP) | ^u128(a.containing.Mask)
+//@ abstracts v4pool(a *Allocator) = false
+
+// an aligned block of the pool is the block of its index (used by the refinement of the interface
+// contract: setting bit i makes exactly block i outstanding)
+//@ lemma v6_block_of_index(base bv128, m bv128, page int, x bv128)
+//@   requires 0 <= ones128(m) && ones128(m) <= page && page <= 128 && page - ones128(m) < 64 && m == cidr128(ones128(m)) && aligned(base, ones128(m))
+//@   requires (x & m) == base && alignedx(x, page)
+//@   reveal idxx, blockx, alignedx
+//@   trigger idxx(base, page, x), ones128(m)
+//@   ensures[C04:block-of-its-index] x == blockx(base, page, idxx(base, page, x))
+//@   split page 0..128
+
 //@ func (*Allocator).Allocate
+//@   refines allocators.Allocator
+//@   uses v6_block_of_index
 //@   requires wf6(a) && !held(a.l)
 //@   modifies bits(a.bitmap), blen(a.bitmap), held(a.l)
 //@   ensures wf6(a) && !held(a.l)
@@ -147,6 +166,7 @@ package bitmap
 //@   ensures[C06:failure-changes-nothing] ret != nil ==> bits(a.bitmap) == old(bits(a.bitmap))
 
 //@ func NewBitmapAllocator
+//@   constructs allocators.Allocator
 //@   requires len(pool.IP) == 16 && len(pool.Mask) == 16
 //@   requires canon128(u128(pool.Mask)) && aligned(u128(pool.IP), ones128(u128(pool.Mask)))
 //@   requires 0 <= size && size <= 128
@@ -155,6 +175,7 @@ package bitmap
 //@   ensures[C04,C05:empty-and-exact-size] ret1 == nil ==> (fresh(ret0) && wf6(ret0) && !held(ret0.l) && ret0.page == size && \
 //@       ret0.containing.IP == pool.IP && ret0.containing.Mask == pool.Mask && bits(ret0.bitmap) == emptyset(uint))
 //@   ensures ret1 != nil ==> ret0 == nil
+//@   ensures[C05,C08:view-empty-pool-as-configured] ret1 == nil ==> ((forall key bv128: !outst(ret0)[key]) && poollo(ret0) == u128(pool.IP) && poolhi(ret0) == (u128(pool.IP) | ^u128(pool.Mask)) && !v4pool(ret0))
 
 // Geometry of the pool (C04/C05): distinct indices below the pool size are distinct,
 // in-pool, page-aligned blocks that do not overlap.
